@@ -360,7 +360,7 @@ class Extracted:
 
 
 def extract_function(proj, fi, functable, real='double', srcrel=None, select=None, report=None,
-                     contract=None, extra_members_cls=None, static_inline=False, exclude_clauses=(), own_cls=None):
+                     contract=None, extra_members_cls=None, static_inline=False, exclude_clauses=(), own_cls=None, rewrites=None):
     """Returns Extracted with .text (C definition incl. contract), .meta (file, lines, sha)"""
     cls = fi.cls
     report = report or X.Report()
@@ -400,6 +400,12 @@ def extract_function(proj, fi, functable, real='double', srcrel=None, select=Non
     tr = X.Translator(cls, real, functable, classinfo, report, template_T=(getattr(fi, 'template_T', False) or template_T_def))
     ret = fi.ret_ctype
     b = body_txt
+    for pat, rep in (rewrites or ()):
+        b, nrw = re.subn(pat, rep, b)
+        report.hit('R16.job_specific_rewrite(%s)' % pat, nrw)
+        if nrw == 0:
+            raise ExtractError('job-specific rewrite %r did not apply (the source changed?)' % pat)
+    b = tr.rule_try_catch(b)
     b = tr.rule_remove(b)
     b = tr.rule_message_strings(b)
     b = tr.rule_istringstream(b)
